@@ -171,7 +171,7 @@ func (g *gen) genDataFile(o dataOpts) *dataFile {
 	if o.locs {
 		n := g.intn(3)
 		for i := 0; i < n; i++ {
-			l := g.pick([]string{"aa", "bb", "\\000\\001", "zz"})
+			l := g.pick([]string{"aa", "bb", "\\000\\001", "zz", "aA", "Aa"})
 			dup := false
 			for _, x := range df.locs {
 				if x == l {
@@ -248,7 +248,18 @@ func (g *gen) genDataFile(o dataOpts) *dataFile {
 			df.lines = append(df.lines, "8"+df.zones[0].name+",e1")
 		}
 		if g.bool() {
-			df.lines = append(df.lines, "M*."+df.zones[0].name+",m1")
+			// the wildcard map is the zone's own map or a map of its own
+			wm := g.pick([]string{"m1", "m2"})
+			if wm == "m2" {
+				df.maps = append(df.maps, "m2")
+			}
+			df.lines = append(df.lines, "M*."+df.zones[0].name+","+wm)
+		}
+		if g.chance(1, 2) {
+			// an exact map on a name inside the zone: it covers that name only, the names below it
+			// fall to the wildcard map (or to none)
+			df.maps = append(df.maps, "m3")
+			df.lines = append(df.lines, "M"+g.pick([]string{"x-1", "www", "a", "n1"})+"."+df.zones[0].name+",m3")
 		}
 		nets := []string{"10.0.0.0/8", "10.1.0.0/16", "192.168.0.0/16", "0.0.0.0/0", "2001:db8::/32", "::/0", "172.16.0.0/12"}
 		for _, m := range df.maps {
